@@ -4,6 +4,8 @@ package c19
 import (
 	"context"
 	"errors"
+	"net/http"
+	"net/url"
 
 	"github.com/filecoin-project/go-jsonrpc/auth"
 
@@ -122,4 +124,101 @@ func HarnessHasPerm() {
 	p := auth.Permission(verif.String("perm", 5))
 	verif.Assert(auth.HasPerm(ctx, defaults, p) == contains(eff, p), "hasperm-iff-member")
 	verif.Reach("hasperm-done")
+}
+
+type recorder struct {
+	status int
+	hdr    http.Header
+}
+
+func (r *recorder) Header() http.Header         { return r.hdr }
+func (r *recorder) Write(b []byte) (int, error) { return len(b), nil }
+func (r *recorder) WriteHeader(s int)           { r.status = s }
+
+// HarnessAuthHandler: the HTTP auth handler attaches exactly the verifier's
+// permissions for a bearer token (header or token query parameter), passes
+// token-less requests on with nothing attached, and answers 401 without
+// calling the next handler when the token is malformed or rejected.
+func HarnessAuthHandler() {
+	hdrForm := verif.Choice("header", 3) // 0 absent, 1 arbitrary string, 2 "Bearer "+t
+	qForm := verif.Choice("query", 2)    // 0 absent, 1 token=t2
+	hdrVal := ""
+	tok := verif.String("tok", 4)
+	switch hdrForm {
+	case 1:
+		hdrVal = verif.String("rawhdr", 8)
+	case 2:
+		hdrVal = "Bearer " + tok
+	}
+	qTok := ""
+	if qForm == 1 {
+		qTok = verif.String("qtok", 4)
+	}
+	verifierFails := verif.Bool("verifier_fails")
+	granted := permSet("granted", 2)
+
+	var verifyCalls int
+	var verifyTok string
+	var nextCalls int
+	var nextAttached bool
+	var nextPerms []auth.Permission
+	type probeKey struct{}
+	h := &auth.Handler{
+		Verify: func(ctx context.Context, token string) ([]auth.Permission, error) {
+			verifyCalls++
+			verifyTok = token
+			if verifierFails {
+				return nil, errors.New("bad token")
+			}
+			return granted, nil
+		},
+		Next: func(w http.ResponseWriter, r *http.Request) {
+			nextCalls++
+			// observe what is attached: with no defaults, HasPerm for p is true iff attached and p ∈ set
+			nextAttached = !auth.HasPerm(r.Context(), []auth.Permission{"__probe__"}, "__probe__")
+			for _, p := range universe {
+				if auth.HasPerm(r.Context(), nil, p) {
+					nextPerms = append(nextPerms, p)
+				}
+			}
+		},
+	}
+	req := &http.Request{Header: http.Header{}, Form: url.Values{}, URL: &url.URL{}, RemoteAddr: "peer"}
+	if hdrForm != 0 {
+		req.Header.Set("Authorization", hdrVal)
+	}
+	if qForm == 1 {
+		req.Form.Set("token", qTok)
+	}
+	req = req.WithContext(context.WithValue(context.Background(), probeKey{}, 1))
+	rec := &recorder{hdr: http.Header{}}
+	h.ServeHTTP(rec, req)
+
+	// reference model
+	eff := hdrVal
+	if eff == "" && qTok != "" {
+		eff = "Bearer " + qTok
+	}
+	switch {
+	case eff == "":
+		verif.Assert(nextCalls == 1 && rec.status == 0, "no-token-passes-on")
+		verif.Assert(!nextAttached, "no-token-nothing-attached")
+		verif.Assert(verifyCalls == 0, "no-token-no-verify")
+	case len(eff) < 7 || eff[:7] != "Bearer ":
+		verif.Assert(rec.status == 401 && nextCalls == 0, "malformed-401-no-next")
+		verif.Assert(verifyCalls == 0, "malformed-no-verify")
+	default:
+		verif.Assert(verifyCalls == 1 && verifyTok == eff[7:], "verify-gets-token")
+		if verifierFails {
+			verif.Assert(rec.status == 401 && nextCalls == 0, "rejected-401-no-next")
+		} else {
+			verif.Assert(nextCalls == 1 && rec.status == 0, "accepted-passes-on")
+			verif.Assert(nextAttached, "accepted-attached")
+			for _, p := range universe {
+				verif.Assert(contains(nextPerms, p) == contains(granted, p), "accepted-exact-perms")
+			}
+			verif.Assert(req.Context().Value(probeKey{}) == 1, "ctx-parent-kept")
+		}
+	}
+	verif.Reach("auth-done")
 }
